@@ -86,11 +86,22 @@ def partner_of(name):
     p = pyid(name)
     if rawid(name) == p:
         return None
-    for cand in (p, name.lower(), name.upper(), name.capitalize()):
+    for cand in (name.lower(), p, name.upper(), name.capitalize()):
         if cand != name and cand and pyid(cand) == p and rawid(cand) != rawid(name):
             return cand
     return None
 
+
+# allOf refinement of one of two sibling properties whose names have the SAME python name before de-confliction (From / from, HTTPStatus / http_status):
+# (general schema, refined schema, instance value); direction fwd = general first, rev = refined first; which = the candidate or its twin is redefined;
+# form = both members inline, or the first member is a $ref parent
+ALLOF_KINDS = {"anystr": ({}, {"type": "string"}, "sv"), "strdate": ({"type": "string"}, D, "2021-03-04"),
+               "numint": ({"type": "number"}, {"type": "integer"}, 7), "strenum": ({"type": "string"}, {"$ref": REF + "ZqEnum"}, "ea")}
+ALLOF_ALL = [("allof", k, d, w, f) for k in ALLOF_KINDS for d in ("fwd", "rev") for w in ("cand", "twin") for f in ("inline", "ref")]
+ALLOF_QUICK = [("allof", k, d, ("cand", "twin")[i % 2], ("inline", "ref")[(i // 2) % 2])
+               for i, (k, d) in enumerate((k, d) for k in ALLOF_KINDS for d in ("fwd", "rev"))]
+ALLOF_ACTIVE = list(ALLOF_QUICK)       # run() switches to ALLOF_ALL for the thorough tier
+TWIN_PLACEMENTS = ("modelraw", "paramraw", "allof")
 
 MODEL_PLACEMENTS = [("model", k, r, "typed") for k in KINDS for r in ("req", "opt")] + [("model", "str", "req", "any"), ("multipart", "str", "req"), ("multipart", "date", "opt")]
 PARAM_PLACEMENTS = [("param", loc, b) for loc in ("path", "query", "header", "cookie") for b in ("nobody", "body")]
@@ -114,6 +125,7 @@ def placements_for(name, scopes, regular=True, reduced=False, raw=True):
     if raw and partner_of(name) is not None:
         if m:
             out.append(("modelraw",))
+            out += ALLOF_ACTIVE
         if e:
             out.append(("paramraw", "query"))
     return out
@@ -126,7 +138,7 @@ def pl_str(pl):
 # ------------------------------------------------------------------ documents
 def build_doc(units):
     """units: list of dicts {uid, name, pl}; one class / one operation per unit"""
-    schemas = {"ZqRef": {"type": "object", "properties": {"zq_r": {"type": "string"}}}}
+    schemas = {"ZqRef": {"type": "object", "properties": {"zq_r": {"type": "string"}}}, "ZqEnum": {"type": "string", "enum": ["ea", "eb"]}}
     paths = {}
     ok200 = {"200": {"description": "ok", "content": {"application/json": {"schema": {"$ref": REF + "ZqRef"}}}}}
     P = lambda n, loc, sch, req=False: {"name": n, "in": loc, "required": True if loc == "path" else req, "schema": sch}
@@ -139,6 +151,18 @@ def build_doc(units):
             if addl == "typed":
                 sch["additionalProperties"] = D
             schemas[f"ZqM{uid}"] = sch
+        elif pl[0] == "allof":
+            _, kind, direction, which, form = pl
+            x, y = (n, u["partner"]) if which == "cand" else (u["partner"], n)
+            general, refined, _ = ALLOF_KINDS[kind]
+            first, second = (general, refined) if direction == "fwd" else (refined, general)
+            m1 = {"type": "object", "properties": {x: first, y: {"type": "string"}}}
+            m2 = {"type": "object", "properties": {x: second}}
+            if form == "inline":
+                schemas[f"ZqA{uid}"] = {"allOf": [m1, m2]}
+            else:
+                schemas[f"ZqB{uid}"] = m1
+                schemas[f"ZqA{uid}"] = {"allOf": [{"$ref": REF + f"ZqB{uid}"}, m2]}
         elif pl[0] == "modelraw":
             schemas[f"ZqW{uid}"] = {"type": "object", "properties": {n: {"type": "string"}, u["partner"]: {"type": "string"}, "zq_sib_d": D}, "additionalProperties": D}
         elif pl[0] == "multipart":
@@ -163,7 +187,14 @@ def build_doc(units):
 
 
 def unit_class(u):
-    return {"model": "ZqM", "modelraw": "ZqW", "multipart": "ZqP"}.get(u["pl"][0], "") + str(u["uid"]) if u["pl"][0] in ("model", "modelraw", "multipart") else None
+    pre = {"model": "ZqM", "modelraw": "ZqW", "multipart": "ZqP", "allof": "ZqA"}.get(u["pl"][0])
+    return pre + str(u["uid"]) if pre else None
+
+
+def unit_classes(u):
+    """every class the unit adds to the document (the $ref parent of an allOf unit is a class of its own)"""
+    c = unit_class(u)
+    return ([c] if c else []) + ([f"ZqB{u['uid']}"] if u["pl"][0] == "allof" and u["pl"][4] == "ref" else [])
 
 
 def instances(u):
@@ -177,6 +208,10 @@ def instances(u):
         if req == "opt":
             out.append({"zq_sib_s": "absent", "zq_x1": "2020-02-02"})
         return out
+    if pl[0] == "allof":
+        x, y = (n, u["partner"]) if pl[3] == "cand" else (u["partner"], n)
+        val = ALLOF_KINDS[pl[1]][2]
+        return [{x: val, y: "tw", "zq_x1": "extra"}, {x: val}, {y: "t2"}]
     if pl[0] == "modelraw":
         return [{n: "a1", u["partner"]: "b1", "zq_sib_d": "2018-07-08", "zq_x1": "2020-01-02"}, {n: "a2"}, {u["partner"]: "b3"}]
     if pl[0] == "multipart":
@@ -315,7 +350,7 @@ def process(units, depth=0):
             ab = absprop.Abs(data)
             mod2cls = {f"models/{m.class_info.module_name}.py": str(m.class_info.name) for m in ab.models}
             bad = compile_check(g.out)
-            cls2unit = {unit_class(u): u for u in live if unit_class(u)}
+            cls2unit = {c: u for u in live for c in unit_classes(u)}
             op2unit = {}
             for u in live:
                 if u["pl"][0] in ("param", "paramraw"):
@@ -504,7 +539,7 @@ def make_units(cands, table_scopes, raw_only=(), reduced=(), spellings=()):
     for name in cands:
         for pl in placements_for(name, table_scopes[name], regular=name not in raw_only, reduced=name in reduced, raw=name not in spellings):
             u = {"name": name, "pl": pl, "key": name + "|" + pl_str(pl)}
-            if pl[0] in ("modelraw", "paramraw"):
+            if pl[0] in TWIN_PLACEMENTS:
                 u["partner"] = partner_of(name)
             units.append(u)
     return units
@@ -532,6 +567,7 @@ def control_units():
     out = [{"name": NEUTRAL, "pl": pl, "key": NEUTRAL + "|" + pl_str(pl)} for pl in MODEL_PLACEMENTS + PARAM_PLACEMENTS]
     out.append({"name": "ZqNeutral", "pl": ("modelraw",), "partner": "zq_neutral", "key": NEUTRAL + "|modelraw"})
     out.append({"name": "ZqNeutral", "pl": ("paramraw", "query"), "partner": "zq_neutral", "key": NEUTRAL + "|paramraw:query"})
+    out += [{"name": "ZqNeutral", "pl": pl, "partner": "zq_neutral", "key": NEUTRAL + "|" + pl_str(pl)} for pl in ALLOF_ACTIVE]
     for u in out:
         u["control"] = True
     return out
@@ -548,6 +584,8 @@ def select(table, tier, rng, known_names):
     fn = [n for n in names if any(s.startswith(FUNCTION_SCOPES) for s in scopes[n])]
     core = [n for n in fn if pyid(n) == n]
     raw = [n for n in fn if pyid(n) != n and partner_of(n) is not None and not n.startswith("_")]
+    # capitalised keywords / reserved words (From / from, Class / class, Self / self): twins that the reserved-word suffix and the raw-name fallback must keep apart
+    raw += [n for n in names if "python.variant" in scopes[n] and n[:1].isupper() and not n.isupper() and partner_of(n) is not None]
     # identifiers the generated functions use that only the reserved-word suffix keeps apart from a document name (dict, str, self, ...)
     guarded = [n for n in fn if pyid(n) == n + "_"] + [n for n in ("self", "true", "false", "datetime", "class", "from", "import", "none", "type", "id") if n in scopes]
     rest = [n for n in names if n not in core and n not in raw and n not in guarded]
@@ -560,6 +598,8 @@ def run(run, tier, replay=None):
     rng = run.rng
     table = load_table()
     known_names = {f["witness"].get("name") for f in run.known.values() if isinstance(f.get("witness"), dict)}
+    global ALLOF_ACTIVE
+    ALLOF_ACTIVE = list(ALLOF_ALL if tier == "thorough" else ALLOF_QUICK)
     names, scopes, raw_only = select(table, tier, rng, known_names)
     table_names = set(scopes)
     # spellings that python_identifier must keep apart from a template identifier N (or fold onto N's own python name): _N, __N, N_, ' N', -N, N-, case variants
@@ -685,12 +725,12 @@ def run(run, tier, replay=None):
                                                      "note": "the NEUTRAL control name does not behave like the proved models: not a capture; the templates or the models changed"})
                 continue
             n_units += 1
-            fam = "model" if u["pl"][0] in ("model", "modelraw", "multipart") else "endpoint"
+            fam = "model" if u["pl"][0] in ("model", "modelraw", "multipart", "allof") else "endpoint"
             # a spelling whose python name (implementation == proved model) is the template identifier N itself generates the same code as N:
             # its captures are N's captures
             canon = u["name"]
             pn = pyname.get(canon)
-            if canon not in name_bad and pn and pn != canon and pn in table_names and pn not in name_bad and pyname.get(pn) == pn and u["pl"][0] not in ("modelraw", "paramraw"):
+            if canon not in name_bad and pn and pn != canon and pn in table_names and pn not in name_bad and pyname.get(pn) == pn and u["pl"][0] not in TWIN_PLACEMENTS:
                 canon = pn
             scope = scope_of(scopes.get(canon, ["?"]), fam)
             run.note_case({"name": u["name"], "placement": pls, "scope": scope}, nontrivial=True, kind=u["pl"][0])
